@@ -16,9 +16,11 @@ from vf.rows_c13 import Invalid
 ID    = "C13"
 LEVEL = "exploration"
 RULE  = ("seeded (table, pipeline, access script) triples: table in {dense list/tuple, LazyDense with/without loader, "
-         "ARFF dense via LazyDense or ArffReader text, sparse dict with int/str keys, LazySparse, ARFF sparse}; pipeline "
-         "of 0-6 stages from HeadRows(seq/map/permuted map), EncodeRows(seq/map by index/name), DropRows(cols by "
-         "index/name, row predicates), LabelRows(index/name), EncodeCatRows(onehot/onehot_tuple/string); 10-24 accesses "
+         "ARFF dense via LazyDense or ArffReader text, CSV text whose header line may be shorter than its data lines, "
+         "sparse dict with int/str keys, LazySparse, ARFF sparse}; pipeline "
+         "of 0-6 stages from HeadRows(seq/map/permuted map/map or sequence naming only some columns), EncodeRows(seq/map "
+         "by index/name), DropRows(cols by index/name, row predicates), LabelRows(index/name; on sparse rows keyed by "
+         "header name also by position through any stack of views), EncodeCatRows(onehot/onehot_tuple/string); 10-24 accesses "
          "per row replayed in two orders on two independent builds. A case is distinct by (layout, source kind, stage "
          "chain with variants, label-parts-checked?); non-trivial = at least one surviving row with at least one column "
          "behind at least one lazy wrapper")
@@ -31,11 +33,16 @@ REQUIRED = ["oracle.dense.pos", "oracle.dense.name", "oracle.dense.iter", "oracl
             "oracle.sparse.neq", "oracle.sparse.eqrow", "oracle.sparse.f_items", "oracle.sparse.f_key",
             "oracle.sparse.f_len", "oracle.sparse.f_iter", "oracle.sparse.f_eq", "oracle.sparse.label",
             "oracle.order-independence", "oracle.rowpred", "stage.head", "stage.encode", "stage.drop", "stage.label",
-            "stage.cat", "source.arff_lazy", "source.arff_text", "source.lazy_loader"]
+            "stage.cat", "source.arff_lazy", "source.arff_text", "source.lazy_loader", "source.csv_text",
+            "domain.partial-headers.source", "domain.partial-headers.head", "domain.partial-headers.encode-map",
+            "domain.partial-headers.encode-seq", "domain.partial-headers.dropcols", "domain.partial-headers.label",
+            "domain.sparse-headers.label-by-pos", "domain.sparse-headers.view.label-by-pos"]
 ASSUMPTIONS = [
     "only keys that exist in the eager model are accessed: positions 0..len-1, header names that survive, sparse keys present in the model row; negative positions, dropped names and out-of-range positions are never used",
     "feats/label are only checked when no column-changing stage follows LabelRows (row-only DropRows may follow); feats is compared by iteration, length, position/key access and equality, never by header name on dense rows",
-    "headers are complete (one unique string name per column); sparse header maps cover every key of the table; Sequence encoders have exactly one encoder per column",
+    "dense header maps give at most one unique string name per column and only name positions that exist (they need not name every column; names of unnamed/dropped columns are never used); sparse header maps cover every key of the table; Sequence encoders have exactly one encoder per column",
+    "on sparse rows keyed by header name an integer label means the column the (outermost) header map places at that position (ARFF attribute index / the integer key under HeadRows); positions are not renumbered by sparse column drops; it is only used while that column survives, and never after a second header map renamed names to names or after EncodeCatRows rebuilt the rows",
+    "CSV text is generated in the plainest dialect (no quotes, no embedded separators, no blank lines); dialect questions belong to C12",
     "encoders never raise on the cells they are applied to; on sparse rows an encoder is only used on a column with absent entries when coba's documented default-zero rule (absent == encoder('0') when that is non-zero, else stays absent) agrees with encoding the column's own implicit zero",
     "EncodeCatRows is only applied when every categorical column holds a Categorical in every surviving row (no missing cells); what feats/label/headers mean after it is not asserted (its output rows are plain lists/dicts)",
     "numbers are compared with == (0 vs 0.0 equal), Categorical vs str and None vs anything are distinguished; list vs tuple is not",
@@ -56,6 +63,7 @@ def _gen_cell(rng, kind):
     if kind == "int":   return rng.choice([0, 1, 2, 3, 5, -1])
     if kind == "float": return rng.choice([0.0, 0.5, 1.0, -2.5, 3.25])
     if kind == "word":  return rng.choice(["a", "b", "ab", "", "x y", "0", "z"])
+    if kind == "cword": return rng.choice(["a", "b", "ab", "", "x y", "0", " z", "k;"])
     if kind == "cat":   return {"cat": [rng.choice(["a", "b", "c"]), ["a", "b", "c"]]}
     if kind == "cat2":  return {"cat": [rng.choice(["u", "v"]), ["u", "v"]]}
     raise ValueError(kind)
@@ -88,6 +96,16 @@ def gen_source(rng, layout):
             p = rng.choice([.3, .6, .9])
             src["rows"] = [[[i, _gen_tok(rng, norm(t), miss_p)] for i, t in enumerate(types) if rng.random() < p] for _ in range(nrows)]
         return src
+    if layout == "dense" and r < .47:                        # CSV text; the header line may be shorter than the data lines
+        ncols = rng.choice([1, 2, 3, 3, 4, 5, 6])
+        kinds = [rng.choice(["istr", "fstr", "cword"]) for _ in range(ncols)]
+        rows = [[_gen_cell(rng, k) for k in kinds] for _ in range(nrows)]
+        if ncols == 1: rows = [[c or "q"] for (c,) in rows]
+        hdr = None
+        if rng.random() < .85:
+            nh = ncols if rng.random() < .4 else rng.randint(1, ncols)
+            hdr = rng.sample(NAMES, nh)
+        return {"kind": "csv_text", "header": hdr, "rows": rows}
     ncols = rng.choice([1, 2, 2, 3, 3, 4, 5, 6, 8])
     kinds = [rng.choice(["istr", "istr", "fstr", "int", "int", "float", "word", "cat", "cat2"]) for _ in range(ncols)]
     if layout == "dense":
@@ -121,7 +139,13 @@ def gen_stage(rng, st, want=None):
         if names is None: return None
         if rng.random() < .3: names = [n + str(rng.randint(2, 3)) for n in names]
         if dense:
-            form = rng.choice(["seq", "seq", "map", "perm"])
+            form = rng.choice(["seq", "seq", "map", "perm", "pmap", "pmap", "short"])
+            if form in ("pmap", "short") and len(cols) < 2: form = "seq"
+            if form == "pmap":                               # a Mapping naming only some columns, in any order
+                poss = rng.sample(cols, rng.randint(1, len(cols) - 1))
+                return {"k": "head", "form": "pmap", "map": [[n, p] for n, p in zip(names, poss)]}
+            if form == "short":                              # fewer names than columns: the trailing columns have no name
+                return {"k": "head", "form": "seq", "names": names[:rng.randint(1, len(cols) - 1)], "partial": True}
             s = {"k": "head", "form": form, "names": names}
             if form == "perm":
                 order = list(range(len(names))); rng.shuffle(order); s["order"] = order
@@ -147,8 +171,9 @@ def gen_stage(rng, st, want=None):
                 if rng.random() < .6:
                     v = _valid_encs(rng, st, c)
                     if not v: continue
-                    byname = st.headers is not None and rng.random() < .6
-                    items.append([st.name_of(c) if byname else c, rng.choice(v)])
+                    nm = st.name_or_none(c)
+                    byname = nm is not None and rng.random() < .6
+                    items.append([nm if byname else c, rng.choice(v)])
             rng.shuffle(items)
             return {"k": "encode", "form": "map", "items": items}
         ints = all(isinstance(k, int) for k in cols) and sorted(cols) == list(range(len(cols)))
@@ -172,7 +197,8 @@ def gen_stage(rng, st, want=None):
         picked = rng.sample(cols, ndrop)
         dc = []
         for c in picked:
-            if dense and st.headers is not None and rng.random() < .5: dc.append(st.name_of(c))
+            nm = st.name_or_none(c) if dense else None
+            if nm is not None and rng.random() < .5: dc.append(nm)
             else: dc.append(c)
         if rng.random() < .08: dc.append(rng.choice(["nope", 97]))              # a column that does not exist: no-op
         pred = None
@@ -183,7 +209,12 @@ def gen_stage(rng, st, want=None):
     if kind == "label":
         if not cols or st.label is not None: return None
         c = rng.choice(cols)
-        if dense and st.headers is not None and rng.random() < .6: c = st.name_of(c)
+        if dense:
+            nm = st.name_or_none(c)
+            if nm is not None and rng.random() < .6: c = nm
+        elif st.posmap and rng.random() < .5:                # rows keyed by header name, label given by position
+            pos = [p for p, n in st.posmap.items() if n == c]
+            if pos: return {"k": "label", "key": pos[0], "via": "pos", "tipe": rng.choice(["c", "r", "m", None])}
         return {"k": "label", "key": c, "tipe": rng.choice(["c", "r", "m", None])}
     if kind == "cat":
         if not st.has_cats(): return None
@@ -202,7 +233,7 @@ def gen_pred(rng, st):
         r = rng.random()
         i = rng.randrange(len(row))
         if r < .5:  return {"p": "eq", "key": i, "val": M.to_spec(row[i])}
-        if r < .75 and st.headers is not None: return {"p": "eq", "key": st.name_of(i), "val": M.to_spec(row[i])}
+        if r < .75 and st.name_or_none(i) is not None: return {"p": "eq", "key": st.name_of(i), "val": M.to_spec(row[i])}
         if r < .9:  return {"p": "has", "val": M.to_spec(row[i])}
         return {"p": "lenodd"}
     common = [k for k in st.universe if all(k in r for r in rows)]
@@ -438,18 +469,23 @@ def shrink(spec, kind, mode, budget=60):
                 if changed: break
     return spec
 
+def _is_partial_head(s):
+    return s.get("form") == "pmap" or bool(s.get("partial"))
+
 def stage_tag(s):
-    if s["k"] == "head":   return "head[perm]" if s.get("form") == "perm" else "head"
+    if s["k"] == "head":   return "head[perm]" if s.get("form") == "perm" else "head[partial]" if _is_partial_head(s) else "head"
     if s["k"] == "encode": return "encode"
     if s["k"] == "drop":   return "dropcols" if s["cols"] and not s.get("pred") else "droprows" if not s["cols"] else "dropcols+rows"
-    if s["k"] == "label":  return "label"
+    if s["k"] == "label":  return "label[pos]" if s.get("via") == "pos" else "label"
     if s["k"] == "cat":    return f"cat[{s['tipe']}]"
     return s["k"]
 
 def src_tag(spec):
     k = spec["source"]["kind"]
+    if k == "csv_text" and spec["source"].get("header") is not None and len(spec["source"]["header"]) < len(spec["source"]["rows"][0]):
+        return "csv[short-header]"
     return {"list": "plain", "tuple": "plain", "dict": "plain", "lazy": "lazy", "lazy_loader": "lazy",
-            "arff_lazy": "arff", "arff_text": "arff"}[k]
+            "arff_lazy": "arff", "arff_text": "arff", "csv_text": "csv"}[k]
 
 def check_case(spec, ctx=None):
     res = check_core(spec, ctx)
@@ -473,11 +509,36 @@ def check_case(spec, ctx=None):
     return out
 
 # ------------------------------------------------------------------------------------------ entry points
+def domain_features(spec):
+    """replays the model stage by stage; returns (final state, structural features the case exercises)"""
+    st = M.model_source(spec["layout"], spec["source"])
+    feats = set()
+    views = 0                                                # lazy views stacked on the row that carries the sparse header map
+    if st.partial_headers(): feats.add("partial-headers.source")
+    for s in spec["stages"]:
+        k = s["k"]
+        if st.partial_headers():
+            if k == "encode": feats.add("partial-headers.encode-" + s["form"])
+            elif k == "drop" and s["cols"]: feats.add("partial-headers.dropcols")
+            elif k == "label": feats.add("partial-headers.label")
+            elif k == "cat": feats.add("partial-headers.cat")
+        if k == "label" and s.get("via") == "pos":
+            feats.add("sparse-headers.label-by-pos")
+            if views: feats.add("sparse-headers.view.label-by-pos")
+        if st.layout == "sparse":
+            if k == "head": views = 0
+            elif k == "encode" or (k == "drop" and s["cols"]): views += 1
+        st = M.apply_stage(st, s)
+        if k == "head" and st.partial_headers(): feats.add("partial-headers.head")
+    if st.label is None: st.feats_ok = False
+    return st, feats
+
 def run_shard(ctx):
     i = 0
     while i < ctx.n and ctx.time_left() > 0:
         spec = gen_case(ctx.rng)
-        st = M.run_model(spec)
+        st, dfeats = domain_features(spec)
+        for f in dfeats: ctx.count("domain." + f)
         tags = tuple(stage_tag(s) + ":" + str(s.get("form", "")) for s in spec["stages"])
         nontrivial = bool(st.alive_rows()) and st.ncols_any() > 0 and (bool(spec["stages"]) or spec["source"]["kind"] not in ("list", "tuple", "dict"))
         ctx.case((spec["layout"], spec["source"]["kind"], tags, st.feats_ok), nontrivial=nontrivial)
